@@ -272,6 +272,15 @@ def grammar_variants(run, name, h, bname, ref, pw, ctx, st, rng):
                               dict(format=name, string=bare_cfg, reference=bare_ref), repro=f"import passlib.hash as H\nprint(H.{name}.from_string({bare_cfg!r}).to_string())")
             run.case((name, "bare-salt-config", r > 0), dict(format=name, string=bare_cfg, reference=bare_ref))
             run.count("origin:bare-salt")
+    # scram: the alg=digest pairs of a stored hash may come in any order; the canonical rendering is sorted
+    if bname == "scram" and not hasattr(h, "wrapped") and ref.count("$") == 4:
+        head, pairs = ref.rsplit("$", 1)
+        items = pairs.split(",")
+        if len(items) > 1:
+            for perm in (items[::-1], items[1:] + items[:1]):
+                if perm != items:
+                    check_string(run, name, h, head + "$" + ",".join(perm), pw, ctx, "unsorted-digest-list", None, canonical=ref)
+                    run.count("origin:unsorted-digest-list")
     # bcrypt: unused padding bits of the last salt character are repaired
     if bname == "bcrypt" and not hasattr(h, "wrapped") and ref[:4] in ("$2a$", "$2b$", "$2y$"):
         salt = ref[7:29]
@@ -373,9 +382,16 @@ def libpass_inspect(run):
         if info is None or info.as_str() != s:
             viol("phc|definition-list", f"inspect_phc with a list of definitions fails for {s!r}", w)
         run.case(("inspect_phc", typ), w)
-        text = H.pw_text(rng, rng.choice([1, 2, 3, 7, 16]))
-        if phc_b64_decode(phc_b64_encode(text)) != text:
-            viol("phc|b64", f"phc_b64 round trip fails for {text!r}", dict(text=text))
+        for text in (H.pw_text(rng, rng.choice([1, 2, 3, 7, 16])), "ab>", "ab?", "ab~", "C\u20ac", "\xff\xfe\xfb", H.pw_bytes(rng, rng.choice([3, 6, 9]), "ascii").decode()):
+            # (the texts include values whose encoding needs the 63rd and 64th alphabet symbol)
+            try:
+                back = phc_b64_decode(phc_b64_encode(text))
+            except Exception as e:
+                viol(f"phc|b64|raises|{type(e).__name__}", f"phc_b64_decode(phc_b64_encode({text!r})) raised {type(e).__name__}: {e}", dict(text=text))
+                continue
+            run.count("phc_b64_roundtrips")
+            if back != text:
+                viol("phc|b64", f"phc_b64 round trip fails for {text!r}", dict(text=text))
         run.count("libpass_inspect")
 
 
@@ -388,9 +404,10 @@ def body(run):
     for n in names:
         if H.usable(n) and n not in H.DISABLED:
             run.require(f"rt:{n}", 2)
-    for o in ("produced", "implicit-rounds", "config-only", "hex-uppercase", "hex-lowercase", "padding-bits-set", "digest-padding-bits-set", "bare-salt"):
+    for o in ("produced", "implicit-rounds", "config-only", "hex-uppercase", "hex-lowercase", "padding-bits-set", "digest-padding-bits-set", "bare-salt", "unsorted-digest-list"):
         run.require(f"origin:{o}", 3)
     run.require("libpass_inspect", 50)
+    run.require("phc_b64_roundtrips", 200)
     if run.tier == "thorough":
         # the repository's own test-suite as one more workload, monitors on (vlib/ambient_plugin.py)
         from vlib.ambient import suite_under_monitor
